@@ -81,7 +81,7 @@ FUZZ_SEEDS = (
 
 
 def shards(tier):
-    out = _progdiff.shards(tier, quick_len=4, thorough_len=6)
+    out = _progdiff.shards(tier, quick_len=4, thorough_len=6, kwargs_len=(7, 8))
     out += _fuzz_shards(tier)
     return out
 
